@@ -131,8 +131,16 @@ def run(ctx: Ctx):
         oksb = bool(sb) and all(c.args and const_str(c.args[0]) == want_case and isinstance(call_kw(c, "names"), ast.Name) for c in sb) and any(norm(call_kw(c, "names")) == "components" for c in sb)
         ctx.check(oksb, "R11.b", f.key("block-header"), f"{want_case}(<component names>)", f"{mname}: block header is not start_odeblock('{want_case}', names=components)", f.where())
     pa = cls.methods["print_assignments"]
-    txt = norm(pa.node)
-    ctx.check("no_component" in txt and "ordered" in txt or "sorted(" in txt, "R11.b", pa.key("headerless-first"), "the header-less group is written before the named blocks", "print_assignments may write the header-less expressions after a named expressions(...) block; on reload they are absorbed into that block", pa.where())
+    loops_pa = [n for n in ast.walk(pa.node) if isinstance(n, ast.For) and norm(n.iter).endswith(".items()")]
+    grp_var = norm(loops_pa[0].iter)[: -len(".items()")] if loops_pa else None
+    grp_def = [n for n in ast.walk(pa.node) if isinstance(n, ast.Assign) and norm(n.targets[0]) == grp_var]
+    hl = [n for n in ast.walk(pa.node) if isinstance(n, ast.Assign) and isinstance(n.value, ast.ListComp) and "start_odeblock" in norm(n.value) and norm(n.value).replace('"', "'").endswith("== '']")]
+    ok_hl = False
+    if grp_def and hl and isinstance(grp_def[0].value, ast.DictComp):
+        first = norm(hl[0].targets[0])
+        it = grp_def[0].value.generators[0].iter
+        ok_hl = isinstance(it, ast.BinOp) and isinstance(it.op, ast.Add) and norm(it.left) == first
+    ctx.check(ok_hl, "R11.b", pa.key("headerless-first"), "the header-less group is written before the named blocks", "print_assignments may write the header-less expressions after a named expressions(...) block; on reload they are absorbed into that block", pa.where())
     sp = sm.func("codegen/ode.py", "print_ScalarParam")
     sks = [fstring_skeleton(n.value) for n in ast.walk(sp.node) if isinstance(n, ast.Assign) and norm(n.targets[0]) == "ret"]
     ctx.check(sorted(s for s in sks if s) == sorted(["{p.name}={doprint(p.value)}", "{p.name}=ScalarParam({doprint(p.value)}{kwargs_str})"]), "R11.b", sp.key("text"), "name=value | name=ScalarParam(value, unit=.., description=..)", f"print_ScalarParam writes {sks}: the value must be the printer's text for p.value, unmodified", sp.where())
